@@ -321,7 +321,27 @@ func heapSifters(c *Ctx) (downs, ups []*ssa.Function) {
 			ups = append(ups, fn)
 		}
 	}
-	return
+	// a helper the pinned tree does not know is read where it is spliced into its (known) caller — as a loop there, with
+	// its size parameter bound to what the caller passes; judged on its own it would be a sifter whose bound is a bare parameter
+	prune := func(fns []*ssa.Function) []*ssa.Function {
+		known := false
+		for _, f := range fns {
+			if p.KnownFunc(f) {
+				known = true
+			}
+		}
+		if !known {
+			return fns
+		}
+		var out []*ssa.Function
+		for _, f := range fns {
+			if p.KnownFunc(f) {
+				out = append(out, f)
+			}
+		}
+		return out
+	}
+	return prune(downs), prune(ups)
 }
 
 // checkSifter decides one sifting function.
@@ -764,6 +784,9 @@ func isHeapSizeSSA(fn *ssa.Function, v ssa.Value, depth int) bool {
 				}
 				if co != fo || idx >= len(c.Common().Args) {
 					continue
+				}
+				if caller == fn && stripChange(c.Common().Args[idx]) == ssa.Value(t) {
+					continue // the recursion hands its own size parameter on unchanged
 				}
 				sites++
 				if !isHeapSizeSSA(caller, c.Common().Args[idx], depth+1) {
